@@ -77,6 +77,9 @@ Section RunsT.
   (* the loader state (and tainted objects) after running the plan against the pointwise subgraphs under a
      fault map and a map of partial-data faults, with the option [vre] and the fetch reasons [coords] *)
   Definition run_t (vre : bool) (coords : N -> list (bytes * bytes)) (F : N -> option fault) (P : N -> option pfault) (t : ftree) : tstate :=
-    fst (load_t unit (partial_exchange answer root_answer kind_of F P) vre coords t tt).
+    fst (load_t unit (partial_exchange answer root_answer kind_of F P) (tainted_indices vre) coords t tt).
+  (* HISTORICAL: the loader before commit 00d2cc7 (a single EntityFetch never tainted) *)
+  Definition run_t_v0 (vre : bool) (coords : N -> list (bytes * bytes)) (F : N -> option fault) (P : N -> option pfault) (t : ftree) : tstate :=
+    fst (load_t unit (partial_exchange answer root_answer kind_of F P) (tainted_indices_v0 vre) coords t tt).
   Definition no_partials : N -> option pfault := fun _ => None.
 End RunsT.
